@@ -184,6 +184,17 @@ partial def go (steps : List String) (res : List String) (k : Nat) (pool : List 
     | "kill" =>
       let ix ← argN 1
       pool' := pool.set ix none
+    | "rt" =>
+      -- C13: dump → Timbuk text → load into a fresh automaton → dump by names shows the same automaton; the start states
+      -- read through the API are the start states of the value (so the dump, the only rule observer, is itself observed)
+      let A ← ent 1
+      let D ← getE ((kv res s!"rt{k}") >>= parseNfa?) "missing reload dump"
+      if !nfaEq D A then
+        f := f ++ [s!"violation step {k}: dump / load / dump shows {showNfa D} for an automaton whose value is {showNfa A}"]
+      let ss ← getE ((kv res s!"ss{k}") >>= (fun t => if t == "-" then some [] else natList? t ',')) "missing start states"
+      if !seteq ss A.start then
+        f := f ++ [s!"violation step {k}: GetStartStates = {ss} but the automaton's start states are {A.start} (the dump shows start rules the automaton does not have, or hides some)"]
+      tags := tags ++ ["rt=1"]
     | _ => throw s!"unknown step {st}"
     -- value semantics: after the step every live entry shows exactly the value the model holds for it
     for i in List.range pool'.length do
